@@ -220,6 +220,16 @@ fn knobs_for(prop: Prop, sub: u64, tier: Tier, rng: &mut Rng) -> Knobs {
                 k.table.z = 1;
                 k.table.x = 1;
             }
+            if sub % 6 == 3 {
+                // a virtual signal that sometimes cannot be evaluated and a caller that keeps
+                // going: the rows that follow are still the prescribed ones
+                k.n_virtual = (1, 1);
+                k.table.z = 2;
+                k.table.x = 1;
+                k.w_beh_table = 6;
+                k.w_layout = [4, 2, 0, 0];
+                k.continue_pct = 100;
+            }
         }
         Prop::C02 => {
             k.w_in_c = 3;
@@ -434,6 +444,13 @@ fn knobs_for(prop: Prop, sub: u64, tier: Tier, rng: &mut Rng) -> Knobs {
                 k.table.x = 1;
             }
             k.swarm(rng);
+            if sub % 4 == 2 {
+                // "whatever the driver returns": errors and layout deviations in the dynamic
+                // runs, a caller that keeps going
+                k.driver_error_pct = 40;
+                k.continue_pct = 100;
+                k.table.z = 1;
+            }
         }
         Prop::C17 => {
             k.random = true;
@@ -460,6 +477,13 @@ fn knobs_for(prop: Prop, sub: u64, tier: Tier, rng: &mut Rng) -> Knobs {
             k.header_swarm = false;
             k.swarm(rng);
             k.w_let = k.w_let.max(4);
+            if sub % 5 == 2 {
+                k.n_virtual = (1, 2);
+                k.table.z = 2;
+                k.table.x = 1;
+                k.w_beh_table = 6;
+                k.continue_pct = 100;
+            }
         }
     }
     k
@@ -536,6 +560,7 @@ fn corpus_case(prop: Prop, rng: &mut Rng) -> Option<Case> {
         max_steps,
         continue_after_error: false,
         source_override: Some(t.source.clone()),
+        dig_file: Some(t.file.clone()),
     };
     if matches!(prop, Prop::C02 | Prop::C10) && rng.chance(1, 3) {
         let probe = run_case(&case);
@@ -620,6 +645,22 @@ pub fn generate(prop: Prop, run_seed: u64, tier: Tier) -> Case {
         }
     }
 
+    if prop == Prop::C15 && case.continue_after_error && rng.chance(1, 2) {
+        let lay = case.duts[0].layout.len();
+        if lay >= 1 {
+            let at = 1 + rng.below(6);
+            let kind = match rng.below(3) {
+                0 if lay >= 2 => FaultKind::Swap(0, lay - 1),
+                1 => FaultKind::SubstName(rng.usize(lay)),
+                _ => FaultKind::Drop(rng.usize(lay)),
+            };
+            case.duts[0].faults.push(Fault {
+                at_call: at,
+                kind,
+                id: 0,
+            });
+        }
+    }
     match prop {
         Prop::C15 => c15_shape(&mut case, &mut rng),
         Prop::C17 => {
@@ -1741,6 +1782,43 @@ fn strip_random(item: &Item) -> Item {
     item.clone()
 }
 
+fn dig_reparse(file: &str) -> Option<Violation> {
+    let path = format!("{}/tests/data/{}", crate::corpus::repo_dir(), file);
+    let text = std::fs::read_to_string(&path).ok()?;
+    let load = || {
+        std::panic::catch_unwind(|| text.parse::<digital_test_runner::dig::File>())
+            .ok()
+            .and_then(|r| r.ok())
+    };
+    let first = load()?;
+    for n in 1..4 {
+        let Some(again) = load() else {
+            return Some(Violation {
+                oracle: "C15.parse",
+                detail: format!("{file}: loaded once, but loading it again (#{n}) failed"),
+            });
+        };
+        let tests_equal = first.test_cases.len() == again.test_cases.len()
+            && first
+                .test_cases
+                .iter()
+                .zip(again.test_cases.iter())
+                .all(|(a, b)| a.name == b.name && a.source == b.source);
+        if first.signals != again.signals || !tests_equal {
+            return Some(Violation {
+                oracle: "C15.parse",
+                detail: format!(
+                    "{file}: loading the same document again gives signals {:?}, the first load \
+                     gave {:?} (tests equal: {tests_equal})",
+                    again.signals.iter().map(|s| s.name.as_str()).collect::<Vec<_>>(),
+                    first.signals.iter().map(|s| s.name.as_str()).collect::<Vec<_>>(),
+                ),
+            });
+        }
+    }
+    None
+}
+
 fn eval_c15(case: &Case) -> Eval {
     let mut ev = Eval::new();
     let out = run_case(case);
@@ -1778,6 +1856,15 @@ fn eval_c15(case: &Case) -> Eval {
     }
     // the order of virtual signals follows the text (any fixed rule would do for
     // determinism; equality across parses above is what the property demands)
+
+    // a test loaded from a .dig file: loading the same document again gives the same signals
+    // in the same order and the same tests (the loader walks hash sets)
+    if let Some(f) = &case.dig_file {
+        if let Some(viol) = dig_reparse(f) {
+            ev.violation = Some(viol);
+            return ev;
+        }
+    }
 
     // solo run of the same test and DUT
     let mut solo = case.clone();
@@ -1887,10 +1974,19 @@ fn eval_c15(case: &Case) -> Eval {
                             }
                         }
                         (Item::End, None) => {}
-                        (Item::DriverErr(_), _) => break,
-                        // a runtime error in the dynamic run caused by the device's answer
-                        // (virtual signal reading Z/X, layout) has no static counterpart
-                        (Item::RuntimeErr(_), _) => break,
+                        // an error item of the dynamic run that is caused by the device
+                        // (driver error, virtual signal reading Z/X, layout deviation) has no
+                        // static counterpart; the row it stands for was consumed, so when the
+                        // caller keeps going the rows that are still yielded line up with
+                        // the static ones position by position
+                        (Item::DriverErr(_), _) | (Item::RuntimeErr(_), _) => {
+                            if !case.continue_after_error {
+                                break;
+                            }
+                            if matches!(st, Some(StaticItem::Err(_)) | None) {
+                                break;
+                            }
+                        }
                         (Item::End, Some(_)) | (Item::Row(_), None) | (Item::Row(_), Some(_)) => {
                             if dynamic.capped || items.len() >= case.max_steps {
                                 break;
